@@ -101,3 +101,81 @@ def node_of_ast(g, sub):
                 if x is sub:
                     return n
     return None
+
+
+def sources_of(prog, f, expr, node=None, depth=0, _cfgs=None):
+    """value expressions an expression may stand for, following single assignment style locals through reaching
+    definitions and the parameters of *private* same-class helpers to the arguments at their call sites.
+    returns [(FuncInfo, expr_ast)] ; an unresolvable name is returned as itself."""
+    from .cfg import build_cfg
+    cfgs = _cfgs if _cfgs is not None else {}
+    if depth > 5 or not isinstance(expr, ast.Name):
+        return [(f, expr)]
+    if f.qualname not in cfgs:
+        cfgs[f.qualname] = build_cfg(f)
+    g = cfgs[f.qualname]
+    if node is None:
+        node = node_of_ast(g, expr)
+    if node is None:
+        return [(f, expr)]
+    out = []
+    for d in reaching_defs(g, node, expr.id):
+        if d.kind == "entry":
+            if expr.id in f.params and f.name.startswith("_") and not f.name.startswith("__") and f.cls is not None:
+                idx = f.params.index(expr.id)
+                found = False
+                for m in f.cls.methods.values():
+                    if m is f or not m.params:
+                        continue
+                    for c in ast.walk(m.node):
+                        if isinstance(c, ast.Call) and isinstance(c.func, ast.Attribute) and c.func.attr == f.name \
+                                and isinstance(c.func.value, ast.Name) and c.func.value.id == m.params[0]:
+                            pos = idx - (1 if f.has_self else 0)
+                            arg = None
+                            if 0 <= pos < len(c.args):
+                                arg = c.args[pos]
+                            for kw0 in c.keywords:
+                                if kw0.arg == expr.id:
+                                    arg = kw0.value
+                            if arg is not None:
+                                found = True
+                                out += sources_of(prog, m, arg, None, depth + 1, cfgs)
+                if not found:
+                    out.append((f, expr))
+            else:
+                out.append((f, expr))
+            continue
+        v = def_value(d, expr.id)
+        if v is None:
+            out.append((f, expr))
+        elif isinstance(v, ast.Name):
+            out += sources_of(prog, f, v, d, depth + 1, cfgs)
+        else:
+            out.append((f, v))
+    return out
+
+
+def private_closure(f, depth=3):
+    """f plus the private methods of its class (or private functions of its module) it calls through self / by name, transitively."""
+    seen = [f]
+    todo = [(f, 0)]
+    while todo:
+        cur, d = todo.pop()
+        if d >= depth:
+            continue
+        for c in ast.walk(cur.node):
+            if not isinstance(c, ast.Call):
+                continue
+            tgt = None
+            if isinstance(c.func, ast.Attribute) and isinstance(c.func.value, ast.Name) and cur.params and c.func.value.id == cur.params[0] \
+                    and cur.cls is not None and c.func.attr.startswith("_") and not c.func.attr.startswith("__"):
+                tgt = cur.cls.lookup_method(c.func.attr)
+            elif isinstance(c.func, ast.Name) and c.func.id.startswith("_") and c.func.id in cur.module.functions:
+                tgt = cur.module.functions[c.func.id]
+            elif isinstance(c.func, ast.Attribute) and isinstance(c.func.value, ast.Name) and cur.cls is not None \
+                    and c.func.value.id == cur.cls.name and c.func.attr.startswith("_"):
+                tgt = cur.cls.lookup_method(c.func.attr)
+            if tgt is not None and all(tgt is not s for s in seen):
+                seen.append(tgt)
+                todo.append((tgt, d + 1))
+    return seen
